@@ -388,7 +388,29 @@ type Edge struct {
 	Idx  int
 }
 
-// ReachAvoiding returns the blocks reachable from start without traversing any edge in cut.
+// deadEdge reports whether successor i of b can never be taken because b ends in an If on a
+// boolean constant (e.g. `runtime.GOOS == "linux"` folded for the analysed platform).
+func deadEdge(b *ssa.BasicBlock, i int) bool {
+	if len(b.Instrs) == 0 {
+		return false
+	}
+	ifi, ok := b.Instrs[len(b.Instrs)-1].(*ssa.If)
+	if !ok {
+		return false
+	}
+	c, ok := ifi.Cond.(*ssa.Const)
+	if !ok || c.Value == nil {
+		return false
+	}
+	taken := 1
+	if constant.BoolVal(c.Value) {
+		taken = 0
+	}
+	return i != taken
+}
+
+// ReachAvoiding returns the blocks reachable from start without traversing any edge in cut
+// (edges that are dead for the analysed platform are never traversed).
 func ReachAvoiding(start *ssa.BasicBlock, cut map[Edge]bool) map[*ssa.BasicBlock]bool {
 	seen := map[*ssa.BasicBlock]bool{start: true}
 	work := []*ssa.BasicBlock{start}
@@ -396,7 +418,7 @@ func ReachAvoiding(start *ssa.BasicBlock, cut map[Edge]bool) map[*ssa.BasicBlock
 		b := work[len(work)-1]
 		work = work[:len(work)-1]
 		for i, s := range b.Succs {
-			if cut[Edge{b, i}] || seen[s] {
+			if cut[Edge{b, i}] || seen[s] || deadEdge(b, i) {
 				continue
 			}
 			seen[s] = true
@@ -421,7 +443,7 @@ func PathAvoiding(start, target *ssa.BasicBlock, cut map[Edge]bool) []int {
 			return path
 		}
 		for i, s := range b.Succs {
-			if cut[Edge{b, i}] {
+			if cut[Edge{b, i}] || deadEdge(b, i) {
 				continue
 			}
 			if _, ok := prev[s]; ok {
@@ -513,7 +535,7 @@ type Ret struct {
 }
 
 func (r Ret) Block() *ssa.BasicBlock { return r.Instr.Block() }
-func (r Ret) Pos() token.Pos        { return r.Instr.Pos() }
+func (r Ret) Pos() token.Pos         { return r.Instr.Pos() }
 
 // Returns lists the logical return sites of fn (the synthetic return of the recover block excluded).
 func Returns(fn *ssa.Function) []Ret {
@@ -576,6 +598,27 @@ func LoopHeaderOf(b *ssa.BasicBlock) *ssa.BasicBlock {
 	return nil
 }
 
+// DominatesLive reports whether every live path from the function entry to b passes through d
+// (dominance on the CFG with platform-dead edges removed).
+func DominatesLive(d, b *ssa.BasicBlock) bool {
+	if d == b {
+		return true
+	}
+	fn := d.Parent()
+	cut := map[Edge]bool{}
+	for _, pr := range d.Preds {
+		for i, s := range pr.Succs {
+			if s == d {
+				cut[Edge{pr, i}] = true
+			}
+		}
+	}
+	if fn.Blocks[0] == d {
+		return true
+	}
+	return PathAvoiding(fn.Blocks[0], b, cut) == nil
+}
+
 // ForAllGuard checks the "test every element, bail out on the first bad one" idiom: the reject
 // edge of test (successor rejectIdx) cannot reach sink, and the loop containing the test cannot be
 // bypassed on the way to sink (its header dominates sink).
@@ -588,7 +631,7 @@ func ForAllGuard(test *ssa.If, rejectIdx int, sink *ssa.BasicBlock) (ok bool, wh
 	if h == nil {
 		return false, "the test is not inside a loop"
 	}
-	if !h.Dominates(sink) {
+	if !DominatesLive(h, sink) {
 		return false, "the checking loop can be bypassed on the way to the sink"
 	}
 	return true, ""
@@ -805,4 +848,30 @@ func FieldLoad(v ssa.Value, name string) (base ssa.Value, ok bool) {
 		}
 	}
 	return nil, false
+}
+
+// Use describes where a value is consumed: in block At, or — for a phi operand — on the edge
+// Via→At (Via != nil).
+type Use struct {
+	At  *ssa.BasicBlock
+	Via *ssa.BasicBlock
+}
+
+// MustPassUse is MustPass for a Use: for a phi operand only the edge Via→At may be used to enter At.
+func MustPassUse(fn *ssa.Function, u Use, atom Atom) (ok bool, nGuards int, path []int) {
+	if u.Via == nil {
+		return MustPass(fn, u.At, atom)
+	}
+	cut := map[Edge]bool{}
+	for _, pr := range u.At.Preds {
+		if pr == u.Via {
+			continue
+		}
+		for i, s := range pr.Succs {
+			if s == u.At {
+				cut[Edge{pr, i}] = true
+			}
+		}
+	}
+	return MustPassFrom(fn, fn.Blocks[0], u.At, atom, cut)
 }
